@@ -2,7 +2,7 @@ use crate::{
     self as simplesl, Error, Interpreter,
     instruction::{ExecResult, Instruction, InstructionWithStr, unary_operation::UnaryOperation},
     unary_operator::UnaryOperator,
-    variable::{ReturnType, Type, Variable},
+    variable::{Array, ReturnType, Type, Typed, Variable},
 };
 use lazy_static::lazy_static;
 use simplesl_macros::var_type;
@@ -43,7 +43,11 @@ pub(crate) fn exec(var: Variable, _interpreter: &mut Interpreter) -> ExecResult 
         };
         vec.push(tuple[1].clone());
     }
-    Ok(vec.into())
+    // as for `\`: the array is one of the iterator's elements, also when it yields nothing
+    match iter.as_type().iter_element() {
+        Some(element_type) => Ok(Array::new_with_type(element_type, vec.into()).into()),
+        None => Ok(vec.into()),
+    }
 }
 
 pub(crate) fn return_type(lhs: Type) -> Type {
